@@ -18,7 +18,11 @@ func TestDebug(t *testing.T) {
 	for i := envInt("DBG_FROM", 0); i < envInt("DBG_TO", 100000); i++ {
 		seed := Mix(base, HashString(propID), uint64(i))
 		scen := NewTape(Mix(seed, 1, 1))
-		if p.Strata != nil && i%2 == 0 {
+		if p.Sweep != nil && i < len(p.Sweep("quick")) {
+			sw := p.Sweep("quick")
+			scen.Force(sw[i].Prefix)
+			scen.Named = sw[i].Named
+		} else if p.Strata != nil && i%2 == 0 {
 			st := p.Strata("quick")
 			scen.Force(st[(i/2)%len(st)])
 		}
